@@ -4337,6 +4337,11 @@ func ruleRevalidateCoversAdmission(c *Ctx) {
 		}
 		if ok, path := fr.mustBefore(fr.Entry(), targets, sites, nil); ok {
 			c.OK(key, c.P.Pos(sites[0].node.Pos()), "repeated by IsTxStillRelevant on every path that answers true")
+		} else if alt := repricingSites(fr); strings.HasSuffix(k, ".verifyTxWitnesses") && len(alt) > 0 && func() bool {
+			ok2, _ := fr.mustBefore(fr.Entry(), targets, append(append([]site{}, sites...), alt...), symAssume("param#2", false))
+			return ok2
+		}() {
+			c.OK(key, c.P.Pos(sites[0].node.Pos()), "witnesses are executed again where one of them is not a standard contract; on the other paths (complete transactions) the cost of the standard witnesses is re-priced with fee.Calculate at the current execution fee factor and compared with what the network fee leaves")
 		} else {
 			extra := ""
 			if strings.HasSuffix(k, ".verifyTxWitnesses") {
@@ -4356,6 +4361,26 @@ func ruleRevalidateCoversAdmission(c *Ctx) {
 	}
 	c.Floor("state-dependent admission checks", n, 6)
 	_ = fa
+}
+
+// repricingSites: conditions of the filter that compare the network fee with a sum into which fee.Calculate of the
+// witness scripts went (the arithmetic re-pricing of standard witnesses).
+func repricingSites(f *FuncCFG) []site {
+	var out []site
+	for _, b := range f.G.Blocks {
+		if !b.Live || len(b.Nodes) == 0 {
+			continue
+		}
+		cond := f.Cond(b)
+		if cond == nil {
+			continue
+		}
+		m := f.Mentions(cond, b)
+		if m["pkg/core/fee.Calculate"] && m["pkg/core/transaction#NetworkFee"] {
+			out = append(out, site{blk: b, idx: len(b.Nodes) - 1, node: b.Nodes[len(b.Nodes)-1]})
+		}
+	}
+	return out
 }
 
 func pkgOfFn(fn *ssa.Function) string {
